@@ -153,6 +153,9 @@ def gen_cover(cases):
 
 
 TEXT_ALPHA = ["a", "&", "<", ">", '"', "'", "\r", "\n", " ", "\t", ";", "#", "é"]
+# characters beyond U+00FF whose LOW BYTE is the code of a character the serializer escapes (& < > " ' CR LF TAB) or NUL
+LOWBYTE_ALPHA = ["\u2026", "\u0126", "\u203c", "\u013c", "\u203e", "\u013e", "\u2022", "\u0122", "\u2027", "\u0127",
+                 "\u010d", "\u200d", "\u010a", "\u0109", "\u0100", "\U0001f626", "\U0001f600", "\uff06", "\u263c"]
 
 
 def gen_cover_text(cases):
@@ -163,6 +166,12 @@ def gen_cover_text(cases):
                 continue
             tree = [X.Elem(None, "", "a", [((None, "", "v"), s)], [("t", s)])]
             cases.append(("xmlser\ttree\t%s\tp" % X.dump_nodes(tree), "cover-text"))
+    for c in LOWBYTE_ALPHA:
+        for s in (c, "a" + c + "b", c + c, "&" + c, c + "<"):
+            tree = [X.Elem(None, "", "a", [((None, "", "v"), s)], [("t", s)])]
+            cases.append(("xmlser\ttree\t%s\tp" % X.dump_nodes(tree), "cover-text"))
+        tree = [X.Elem("p", "urn:" + c, "a", [(("p", "urn:" + c, "v"), c)], [("c", c), ("t", c)])]
+        cases.append(("xmlser\ttree\t%s\tp" % X.dump_nodes(tree), "cover-text"))
     # references spelled out in the data
     for s in ["&amp;", "&lt;x", "a&#13;b", "&quot;", "&#x26;", "&&", "]]>", "&amp;amp;"]:
         tree = [X.Elem(None, "", "a", [((None, "", "v"), s)], [("t", s)])]
